@@ -98,6 +98,12 @@ impl CaseKind for HistCase {
         let (out, it) = it.run(&self.hist);
         let classes_of = |st: &HStats| {
             let mut c: Vec<String> = self.hist.ops().iter().map(|o| format!("op:{}", o.name())).collect();
+            for s in &self.hist.steps {
+                match s {
+                    Step::Leaf { .. } | Step::Apply(_) => {}
+                    other => c.push(format!("step:{}", crate::opcase::step_name(other))),
+                }
+            }
             c.sort();
             c.dedup();
             c.push(format!("passes:{}", st.passes.min(4)));
